@@ -311,7 +311,7 @@ MUTANTS = [
     ("dollar_safe", _m("safe", "case '_':", "case '_':\n    case '$':")),
     ("space_safe", _m("safe", "case '+':", "case '+':\n    case ' ':")),
     ("needs_escaping_skips_last", _m("needs", "i < input.size()", "i + 1 < input.size()")),
-    ("separator_after_first_only", _m("mpl", "if (!result.empty())\n      result.push_back(sep);", "if (i == span + 1)\n      result.push_back(sep);")),
+    ("separator_missing_between_first_two", _m("mpl", "if (!result.empty())\n      result.push_back(sep);", "if (i == span + 2)\n      result.push_back(sep);")),
     ("list_not_escaped", _m("mpl", "if (escape_in_out_ == kShellEscape) {", "if (escape_in_out_ != kShellEscape) {")),
 ]
 
